@@ -349,3 +349,211 @@ pub fn register_c08(s: &Session) {
         }
     });
 }
+
+// ---------------------------------------------------------------------------------------------
+// C09: emitting never waits on the destination, pending work stays bounded, overflow is counted
+
+/// capacity of each signal's channel (`emit_batcher::bounded(10_000)` in `OtlpBuilder::spawn_inner`)
+const OTLP_CHANNEL_CAPACITY: usize = 10_000;
+
+#[derive(Serialize, Deserialize, Debug, Clone, Copy, PartialEq)]
+pub enum DeadEnd {
+    /// every request is read and then held unanswered
+    HoldsEverything,
+    /// nothing listens: connection refused
+    Refuses,
+    /// connections are accepted, the request is never read (nor answered, nor closed)
+    NeverReads,
+}
+
+#[derive(Serialize, Deserialize, Debug, Clone, PartialEq)]
+pub struct StalledDestCase {
+    pub wire: Wire,
+    pub gzip: bool,
+    pub signal: Signal,
+    pub endpoint: DeadEnd,
+    /// events emitted by each thread on the stalled signal
+    pub threads: Vec<u16>,
+    /// a healthy second signal that gets this many events from the first thread, interleaved
+    pub healthy: Option<(u8, u8)>,
+}
+
+fn stalled_dest_case(signal: Signal, endpoint: DeadEnd) -> impl Strategy<Value = StalledDestCase> {
+    let per_thread = || prop_oneof![2 => 0u16..2_000, 2 => 3_000u16..7_000, 3 => 9_000u16..13_000];
+    let threads = prop_oneof![
+        2 => prop::collection::vec(per_thread(), 1..=3),
+        1 => prop::collection::vec(9_000u16..13_000, 3..=3),
+    ];
+    (wires(), any::<bool>(), threads, prop_oneof![1 => Just(None), 1 => (0u8..2, 1u8..=20).prop_map(Some)])
+        .prop_map(move |(wire, gzip, threads, healthy)| StalledDestCase { wire, gzip, signal, endpoint, threads, healthy })
+}
+
+fn sample_all(otlp: &emit_otlp::Otlp) -> BTreeMap<String, usize> {
+    use emit::metric::Source as _;
+    let out = std::cell::RefCell::new(BTreeMap::new());
+    otlp.metric_source().sample_metrics(emit::metric::sampler::from_fn(|m| {
+        out.borrow_mut().insert(m.name().to_string(), m.value().by_ref().cast::<usize>().unwrap_or(usize::MAX));
+    }));
+    out.into_inner()
+}
+
+pub fn check_c09(sc: &StalledDestCase, cx: &mut Cx) -> Result<Result<(), String>, vcore::Fail> {
+    timing::ensure();
+    let _permit = Permit::acquire();
+    let base = next_base();
+    let c = match start_collector(sc.wire) {
+        Ok(c) => c,
+        Err(e) => return Ok(Err(e)),
+    };
+    let sig = sc.signal;
+    let total: usize = sc.threads.iter().map(|n| *n as usize).sum();
+    cx.class("otlp-e2e-stalled-destination");
+    cx.class(wire_label(sc.wire));
+    cx.class(match sc.endpoint {
+        DeadEnd::HoldsEverything => "otlp-stall:endpoint-holds-every-request",
+        DeadEnd::Refuses => "otlp-stall:endpoint-refuses-connections",
+        DeadEnd::NeverReads => "otlp-stall:endpoint-never-reads",
+    });
+    cx.class_if(total > OTLP_CHANNEL_CAPACITY, "otlp-stall:more-events-than-capacity");
+    cx.class_if(total > 2 * OTLP_CHANNEL_CAPACITY, "otlp-stall:overflow-certain");
+    cx.class(&format!("otlp-stall:threads-{}", sc.threads.len()));
+    cx.nontrivial(total > OTLP_CHANNEL_CAPACITY || sc.threads.len() > 1);
+
+    let healthy = sc.healthy.map(|(n, count)| {
+        let others: Vec<Signal> = Signal::ALL.into_iter().filter(|s| *s != sig).collect();
+        (others[n as usize % others.len()], count)
+    });
+    cx.class_if(healthy.is_some(), "otlp-stall:healthy-second-signal");
+    let mut subset = [false; 3];
+    subset[sig.index()] = true;
+    if let Some((h, _)) = healthy {
+        subset[h.index()] = true;
+    }
+    let mut cfg = config_only(sc.wire, sc.gzip, subset);
+    match sc.endpoint {
+        DeadEnd::HoldsEverything => c.set_default(sig, Decision::Stall),
+        DeadEnd::NeverReads => c.set_default(sig, Decision::WedgeConnection { keep_reading: false }),
+        DeadEnd::Refuses => cfg.outage = Some((sig, Outage::Refused)),
+    }
+    let otlp = std::sync::Arc::new(build(&c, &cfg));
+
+    let (tx, rx) = std::sync::mpsc::channel::<usize>();
+    for (ti, n) in sc.threads.iter().enumerate() {
+        let (otlp, tx, n) = (otlp.clone(), tx.clone(), *n as usize);
+        let _ = std::thread::Builder::new().name(format!("c09-emit-{ti}")).spawn(move || {
+            for i in 0..n {
+                emit_to(&otlp, sig, base + (i % 90_000) as u64, 0);
+                if ti == 0 {
+                    if let Some((h, count)) = healthy {
+                        if i < count as usize {
+                            emit_to(&otlp, h, base + 90_000 + i as u64, 0);
+                        }
+                    }
+                }
+            }
+            let _ = tx.send(ti);
+        });
+    }
+    drop(tx);
+    let mut done = 0;
+    let deadline = std::time::Instant::now() + Duration::from_secs(30);
+    while done < sc.threads.len() {
+        match rx.recv_timeout(deadline.saturating_duration_since(std::time::Instant::now())) {
+            Ok(_) => done += 1,
+            Err(_) => break,
+        }
+    }
+    if done < sc.threads.len() {
+        // let the stuck threads (and the worker) get somewhere: the endpoint turns healthy where it can
+        c.set_default(sig, Decision::Ack);
+        c.release_stalls();
+        let m = sample_all(&otlp);
+        // the collector is left to the detached threads for a moment, then torn down
+        std::thread::sleep(Duration::from_millis(200));
+        c.shutdown();
+        cx.fail(
+            "C09/otlp-emit-blocked-by-stalled-destination",
+            format!(
+                "{} of {} emitting threads had not returned from `emit` after 30 s while the {sig:?} endpoint was stalled ({:?}, events per thread {:?}); emitter metrics: {:?}",
+                sc.threads.len() - done,
+                sc.threads.len(),
+                sc.endpoint,
+                sc.threads,
+                m.iter().filter(|(k, _)| k.contains("queue")).collect::<Vec<_>>()
+            ),
+        )?;
+        return Ok(Ok(()));
+    }
+
+    // everything was emitted while the destination made no progress: what is pending is bounded, what
+    // was thrown away is counted
+    let m = sample_all(&otlp);
+    c.release_stalls();
+    c.shutdown();
+    drop(otlp);
+    let word = match sig {
+        Signal::Logs => "logs",
+        Signal::Traces => "traces",
+        Signal::Metrics => "metrics",
+    };
+    let by_suffix = |suffix: &str| m.iter().find(|(k, _)| k.ends_with(suffix) && k.contains(word)).map(|(_, v)| *v);
+    let (Some(pending), Some(truncated)) = (by_suffix("queue_length"), by_suffix("queue_full_truncated")) else {
+        return Ok(Err(format!("the emitter's metric source has no queue_length / queue_full_truncated for {word}: {:?}", m.keys().collect::<Vec<_>>())));
+    };
+    if pending > OTLP_CHANNEL_CAPACITY {
+        cx.fail(
+            "C09/otlp-pending-exceeds-capacity",
+            format!("{pending} events pending on {sig:?} after {total} were emitted against a stalled endpoint ({:?}); the channel's capacity is {OTLP_CHANNEL_CAPACITY}", sc.endpoint),
+        )?;
+    }
+    // More than twice the capacity on a worker that is still busy with its FIRST batch (it has taken the
+    // queue at most once, at most `capacity` items): the queue was full at some send. When emit reports
+    // that the worker got further than its first batch the claim is not made.
+    let attempts_failed = by_suffix("queue_batch_failed").unwrap_or(0);
+    let processed = by_suffix("queue_batch_processed").unwrap_or(0);
+    if total > 2 * OTLP_CHANNEL_CAPACITY {
+        if processed == 0 && attempts_failed <= 10 {
+            if truncated >= 1 {
+                cx.class("otlp-stall:truncation-counted");
+            } else {
+                cx.fail(
+                    "C09/otlp-overflow-not-counted",
+                    format!("{total} events were emitted on {sig:?} against a stalled endpoint ({:?}), {pending} are pending, yet queue_full_truncated is {truncated}", sc.endpoint),
+                )?;
+            }
+        } else {
+            cx.dont_care();
+        }
+    } else if truncated >= 1 {
+        cx.class("otlp-stall:truncation-counted");
+    }
+    Ok(Ok(()))
+}
+
+/// Registers the OTLP clause of C09 (`otlp-e2e-stalled-destination-<n>`): call from the c09 binary's session body.
+pub fn register_c09(s: &Session) {
+    let q = s.quick();
+    s.require("otlp-stall:more-events-than-capacity", if q { 40 } else { 1200 });
+    s.require("otlp-stall:overflow-certain", if q { 12 } else { 400 });
+    s.require("otlp-stall:truncation-counted", if q { 12 } else { 400 });
+    for k in ["endpoint-holds-every-request", "endpoint-refuses-connections", "endpoint-never-reads"] {
+        s.require(&format!("otlp-stall:{k}"), if q { 50 } else { 1500 });
+    }
+    let cases = s.n(20, 600);
+    // strata: every signal x every endpoint behaviour
+    std::thread::scope(|scope| {
+        let mut inst = 0;
+        for signal in Signal::ALL {
+            for endpoint in [DeadEnd::HoldsEverything, DeadEnd::Refuses, DeadEnd::NeverReads] {
+                let name = format!("otlp-e2e-stalled-destination-{inst}");
+                inst += 1;
+                scope.spawn(move || {
+                    let guard = ShrinkGuard::new(3, 45);
+                    s.gen(&name, cases, move || stalled_dest_case(signal, endpoint), |c, cx| {
+                        guard.run(s, cx, |cx| res(check_c09(c, cx), |p| s.inconclusive(format!("harness: {p}"))))
+                    });
+                });
+            }
+        }
+    });
+}
